@@ -53,11 +53,13 @@ def sources(r, n=6):
     # glyph and across glyphs: whatever attributes travel with a reused shape must do so in a fixed order
     star = "M{x},{y} l8,22 l-20,-14 l24,0 l-20,14 Z"
     combos = [("#E53935", "0.5"), ("#3949AB", None), ("#00897B", "0.7"), ("#E53935", None), ("#3949AB", "0.5")]
+    # (these two live in a second source directory: sources are identified by name and content, not by how their path
+    # happens to be spelled from the current directory)
     for j, name in enumerate(["emoji_u1f9d0.svg", "emoji_u1f9d1.svg"]):
         parts = []
         for k, (col, op) in enumerate(combos[j:] + combos[:j]):
             parts.append(f'<path d="{star.format(x=15 + 16 * k, y=20 + 9 * k + 5 * j)}" fill="{col}"' + (f' opacity="{op}"' if op else "") + "/>")
-        out["src/" + name] = f'<svg xmlns="http://www.w3.org/2000/svg" viewBox="0 0 100 100">{"".join(parts)}</svg>\n'
+        out["art2/" + name] = f'<svg xmlns="http://www.w3.org/2000/svg" viewBox="0 0 100 100">{"".join(parts)}</svg>\n'
     return out
 
 
@@ -102,6 +104,10 @@ def build_variant(work: Path, tag, files, fmt, variant, r):
             cwd.mkdir(parents=True)
             args = [str(root / n) for n in names]
             sb.build = root / "out" / "b" / "build"
+        elif kind == "cwd-rel":
+            # run from inside one source directory with relative spellings ("x.svg", "../src/y.svg")
+            cwd = root / "art2"
+            args = [os.path.relpath(root / n, cwd) for n in names]
         flags = ["--color_format", fmt]
         if kind in ("j1", "topo"):
             rc, out = sb.run(flags + ["--noexec_ninja"] + args, env=env, cwd=cwd)
@@ -159,7 +165,7 @@ def run(chk):
         # ---- real builds
         files = sources(r, 6 if quick else 8)
         variants = [{"kind": "base"}, {"kind": "argperm"}, {"kind": "hashseed", "seed": 1}, {"kind": "hashseed", "seed": 2},
-                    {"kind": "hashseed", "seed": 3}, {"kind": "hashseed", "seed": 12345}, {"kind": "j1"}, {"kind": "topo"}, {"kind": "cwd"}]
+                    {"kind": "hashseed", "seed": 3}, {"kind": "hashseed", "seed": 12345}, {"kind": "j1"}, {"kind": "topo"}, {"kind": "cwd"}, {"kind": "cwd-rel"}]
         if not quick:
             variants += [{"kind": "argperm", "n": 2}, {"kind": "argperm", "n": 3}, {"kind": "hashseed", "seed": 7},
                          {"kind": "hashseed", "seed": 99}, {"kind": "topo", "n": 2}, {"kind": "topo", "n": 3},
